@@ -51,7 +51,9 @@ def gen_ast(rng: random.Random, w: int) -> dict:
         ns = rng.choice(NAMESPACES)
         params = rng.sample(POOL_PARAMS, rng.randint(0, 3))
         locs = [l for l in rng.sample(POOL_LOCALS, rng.randint(0, 2)) if l not in params]
-        heads.append({"ns": ns, "name": names[k % len(names)], "params": params, "locals": locs})
+        heads.append({"ns": ns, "name": names[k % len(names)], "params": params, "locals": locs,
+                      # a LABEL parameter: the body declares `param:` - the caller chooses the label's name
+                      "lblparam": params[0] if params and rng.random() < 0.15 else None})
     # unique (fullname, arity)
     seen = set()
     defs = []
@@ -96,11 +98,30 @@ def gen_ast(rng: random.Random, w: int) -> dict:
         dots, comps = rng.choice(options)
         return dots, comps
 
+    fresh = [0]
+
+    def args_for(j: int, scope, ctx, iters, pend_locals):
+        """arguments of a call to defs[j]; a label parameter gets a bare label name: one of the caller's local labels that the
+        caller then does not define itself, or a fresh global name"""
+        out_ = []
+        for p_ in defs[j]["params"]:
+            if p_ == defs[j].get("lblparam"):
+                if pend_locals and rng.random() < 0.6:
+                    out_.append(EX("id", pend_locals.pop(), 0, 1, 0))
+                else:
+                    fresh[0] += 1
+                    out_.append(EX("id", f"u{fresh[0]}", 0, 1, 0))
+            else:
+                out_.append(expr(scope, ctx, iters, True))
+        return out_
+
     def body(k: int, depth: int) -> List[dict]:
         d = defs[k]
         scope = d["params"] + d["locals"]
         out = []
         pend_locals = list(d["locals"])
+        if d.get("lblparam"):
+            out.append({"k": "label", "n": d["lblparam"]})
         for _ in range(rng.randint(1, 4)):
             r = rng.random()
             callees = [j for j in range(k + 1, len(defs))]
@@ -110,14 +131,14 @@ def gen_ast(rng: random.Random, w: int) -> dict:
                 j = rng.choice(callees)
                 dots, comps = call_to(j, d["ns"])
                 out.append({"k": "call", "sid": newsid(), "m": comps, "dots": dots,
-                            "args": [expr(scope, d["ns"], [], True) for _ in defs[j]["params"]]})
+                            "args": args_for(j, scope, d["ns"], [], pend_locals)})
             elif callees and r < 0.75:
                 j = rng.choice(callees)
                 dots, comps = call_to(j, d["ns"])
                 it = rng.choice(POOL_ITERS)
                 cnt = EX("num", o=rng.choice([0, 1, 2, 3]))
                 out.append({"k": "rep", "sid": newsid(), "cnt": cnt, "it": it, "m": comps, "dots": dots,
-                            "args": [expr(scope, d["ns"], [it], True) for _ in defs[j]["params"]]})
+                            "args": args_for(j, scope, d["ns"], [it], pend_locals)})
             elif r < 0.9:
                 out.append({"k": "op", "f": expr(scope, d["ns"], []), "j": expr(scope, d["ns"], [])})
             else:
@@ -136,11 +157,11 @@ def gen_ast(rng: random.Random, w: int) -> dict:
         dots, comps = call_to(j, [])
         if rng.random() < 0.7:
             main.append({"k": "call", "sid": newsid(), "m": comps, "dots": dots,
-                         "args": [expr([], [], [], True) for _ in defs[j]["params"]]})
+                         "args": args_for(j, [], [], [], [])})
         else:
             it = rng.choice(POOL_ITERS)
             main.append({"k": "rep", "sid": newsid(), "cnt": EX("num", o=rng.choice([0, 1, 2, 3])), "it": it, "m": comps, "dots": dots,
-                         "args": [expr([], [], [it], True) for _ in defs[j]["params"]]})
+                         "args": args_for(j, [], [], [it], [])})
     main.append({"k": "label", "n": "halt"})
     main.append({"k": "op", "f": EX("num"), "j": EX("id", "halt")})
     for name in POOL_LABELS:
@@ -342,11 +363,12 @@ def _case(args):
         ctx = {"source": single, "inlined": c02.render_prog(prog)}
         if not inl["wellformed"]:
             raise MachineryFailure("generator produced a call to an undefined macro")
-        if not inl.get("gunique", True):
-            # the same global label is defined twice (an extern label of a macro that is expanded twice): a program error
+        if not inl.get("gunique", True) or not inl.get("unique", True):
+            # the same label is defined twice (an extern label of a macro that is expanded twice, or one label name handed to a
+            # label parameter more than once): a program error
             if orig["ok"]:
-                return [{"what": "a global label defined twice (by two expansions of one macro) is accepted", **ctx}]
-            return [{"skipped": "duplicate global label: rejected, as it must be"}]
+                return [{"what": "a label defined twice (by two expansions that name the same label) is accepted", **ctx}]
+            return [{"skipped": "duplicate label: rejected, as it must be"}]
         if not flat["ok"] and not orig["ok"]:
             return [{"skipped": "neither the program nor its inlining assembles: " + flat["err"][:120]}]
         if not flat["ok"]:
@@ -428,8 +450,6 @@ def run(chk: Check, replay=None, only_c16: bool = False):
     for i, (w, ast) in enumerate(cases):
         if i not in inl:
             raise MachineryFailure(f"no inlining for case {i}")
-        if not inl[i]["unique"]:
-            raise MachineryFailure("FJMacro!LocalNamesUnique is violated by the specification itself")
         work.append((i, w, ast, inl[i]))
     bad_lists = par.pmap(_case, work, so_path=so, procs=16, chunksize=4)
     chk.traces += len(work)
